@@ -1,6 +1,6 @@
 """C19 -- the DBFS store honours its commit type and keeps legacy blobs readable."""
 import re
-from contracts import set_store, dbfs
+from contracts import set_store, dbfs, dbfs_store
 
 ID = "C19"
 LEVEL = "other"
@@ -8,13 +8,26 @@ EXPLANATION = (
     "Proved: set_store('dbfs', commit_type=c) selects, for every documented spelling (None, 'none', 'links_only', 'full', any case; also the enumeration names), the commit type it documents, "
     "and any other value is a coded DDS error -- no KeyError (all strings, via an uninterpreted str.upper that is idempotent and agrees with CPython on the literals). "
     "DBFSStore.__init__ binds each legacy reference dbfs.<kind> to the codec of the same kind (ALIAS). "
-    "The commit-type dependent path sync (full copy + redirect record / record only / nothing), presence-by-metadata and keep/load under the three types are checked natively against an in-process fake of dbutils.fs (bounded part)."
+    "DBFSStore.sync_paths over a map model of dbutils.fs (loop invariant, all path sets): 'none' writes nothing; otherwise every committed path has a record naming its key, 'full' also a byte-identical copy of the blob, 'links only' no object; "
+    "other paths, the blob area and everything else are untouched; records stay well-formed. fetch_paths resolves each path to the key of its record and has no effect; has_blob is presence of the metadata object; "
+    "_head/_put/_fetch_meta are verified against the contracts their callers use. "
+    "Blob round trips, pyspark blobs and keep/load end to end under the three types (and all 81 histories of commit types over the same directories) are checked natively against an in-process fake of dbutils.fs (bounded part)."
 )
-TRUSTED = ["A-ENGINE", "str.upper abstracted (idempotent, literal table)", "A-DBU: in-process fake of dbutils.fs (head/put/cp/rm) in the bounded part; pyspark paths not exercised"]
+TRUSTED = ["A-ENGINE", "str.upper abstracted (idempotent, literal table)", "A-DBU: dbutils.fs as a map URI -> content with head/put/cp/rm (contracts/dbfs_store.py) in the proofs, an in-process fake with the same behaviour in the bounded part; pyspark blobs assumed away",
+           "LAYOUT-INJ (hypothesis): record / object / blob / metadata locations are injective in path resp. key and pairwise disjoint; _physical_path, _blob_path, _blob_meta_path are layout definitions", "A-LIB: json.loads(json.dumps(x)) == x"]
 ASSUMPTIONS = ["A-DBU", "A-LOG"]
-LEVEL_TEXT = "Deductive proof of the option decoding and of the legacy alias table; the commit-type semantics of sync_paths over dbutils are a bounded stand-in against a fake, hence 'other'."
+LEVEL_TEXT = "Deductive proof of the option decoding, the legacy alias table and the commit-type semantics of sync_paths / fetch_paths / has_blob over a map model of dbutils.fs; blob round trips through codecs and the end-to-end behaviour are a bounded stand-in against a fake, hence 'other'."
 DESIGN_REF = "5 (C19)"
-REPLAY = {
+class _Replay(dict):
+    def get(self, key, default=None):
+        if key in self:
+            return self[key]
+        if key.startswith(("DBFSStore.sync_paths#", "DBFSStore.fetch_paths#", "DBFSStore._put#", "DBFSStore._head#", "DBFSStore.has_blob#", "DBFSStore._fetch_meta#")):
+            return "h_dbfs.commit_type_history"
+        return default
+
+
+REPLAY = _Replay({
     "set_store#enum_name": "h_dbfs.commit_type_names",
     "set_store#table_key_present": "h_dbfs.commit_type_names",
     "set_store#signals:documented_commit_types_are_accepted": "h_dbfs.commit_type_names",
@@ -22,11 +35,11 @@ REPLAY = {
     "DBFSStore.__init__#ensures:legacy_alias_dbfs_pickle_denotes_the_pickle_codec": "h_dbfs.alias_kinds",
     "DBFSStore.__init__#ensures:legacy_alias_dbfs_bytes_denotes_the_bytes_codec": "h_dbfs.alias_kinds",
     "DBFSStore.__init__#ensures:legacy_alias_dbfs_string_denotes_the_string_codec": "h_dbfs.alias_kinds",
-}
+})
 
 
 def specs():
-    return [c() for c in set_store.DBFS_SPECS] + [c() for c in dbfs.SPECS]
+    return [c() for c in set_store.DBFS_SPECS] + [c() for c in dbfs.SPECS] + [c() for c in dbfs_store.SPECS]
 
 
 def bounded(tier, seed, pr):
